@@ -36,6 +36,7 @@ def oracle(case):
     out.sample = dict(src=src if "file" in src else inputs.kind(src), a=a_opts, b=b_opts)
     texts = []
     colon_items = set()
+    hit = False
     for opts in (a_opts, b_opts):
         las = inputs.load(src, **rk)
         if is_raised(las):
@@ -45,7 +46,9 @@ def oracle(case):
         if text_unquotable(las) or text_hit_by_subs(las):
             out.excluded = True
             out.cls("excluded-open-finding")
-            return out
+            if not case.get("force"):
+                return out
+            hit = True
         if text_with_blanks(las):
             out.cls("text-sample-with-blanks")
         for name, sec in las.sections.items():
@@ -69,7 +72,7 @@ def oracle(case):
     for t, opts in zip(texts, (a_opts, b_opts)):
         r = read_text(t, **rk)
         if is_raised(r):
-            out.fail("reread-raises|%s|v%s|wrap=%s" % (r.bucket, opts.get("version"), opts.get("wrap")),
+            out.fail("text-sample-rewritten-by-data-line-substitutions" if hit else "reread-raises|%s|v%s|wrap=%s" % (r.bucket, opts.get("version"), opts.get("wrap")),
                      "lasio cannot read its own output written with %r: %s\n%s\n%s" % (opts, r, inputs.describe(src)[:500], t[:2500]))
             return out
         reads.append(canon.from_las(r))
@@ -80,7 +83,7 @@ def oracle(case):
     d = canon.diff(reads[0], reads[1], names=("cfgA", "cfgB"), skip_items=skip)
     if d:
         why = "version" if vdiff and d[0][0].startswith("Well") else ("wrap" if wdiff and d[0][0].startswith("data") else "layout")
-        out.fail("content-depends-on-options|%s|%s" % (d[0][0], why),
+        out.fail("text-sample-rewritten-by-data-line-substitutions" if hit else "content-depends-on-options|%s|%s" % (d[0][0], why),
                  "cfgA=%r\ncfgB=%r\n%s\n%s\n--- text A ---\n%s\n--- text B ---\n%s" % (a_opts, b_opts, canon.show(d), inputs.describe(src)[:500],
                                                                                       texts[0][:2000], texts[1][:2000]))
     return out
